@@ -473,10 +473,22 @@ func init() {
 		}
 		dir := filepath.Join(os.Getenv("VERIF_SCRATCH"), fmt.Sprintf("c10-%d", c.Part))
 		defer os.RemoveAll(dir)
-		for pass := 0; pass < 3; pass++ {
+		// passes 3-5 start from non-initial states (a history that the depth bound alone does not reach):
+		// 3: a target was moved away and dropped while in_transfer; 4: two targets, each scraped once with
+		// different sample counts; 5: one target scraped three times with counts unlike the coordinator's estimate
+		prefixes := map[int][]c10Op{
+			3: {{Kind: "update", A: []c10T{{1, "j1", ""}}}, {Kind: "update", A: []c10T{{1, "j1", "in_transfer"}}}, {Kind: "update"}},
+			4: {{Kind: "update", A: []c10T{{1, "j1", ""}, {2, "j1", ""}}}, {Kind: "scrape", Hash: 1, N: 8}, {Kind: "scrape", Hash: 2, N: 5}},
+			5: {{Kind: "update", A: []c10T{{1, "j1", ""}}}, {Kind: "scrape", Hash: 1, N: 8}, {Kind: "scrape", Hash: 1, N: 8}, {Kind: "scrape", Hash: 1, N: 5}},
+		}
+		for pass := 0; pass < 6; pass++ {
 			// passes 0 and 1: the two map-order policies on a fresh directory; pass 2: a directory with a leftover
 			// old-version file
 			policy := pass % 2
+			if pass >= 3 {
+				policy = 0
+			}
+			prefix := prefixes[pass]
 			c10Legacy = pass == 2
 			vrt.OrderPolicy = policy
 			seen := map[string]bool{}
@@ -485,11 +497,15 @@ func init() {
 			// level 1 is partitioned among the workers
 			for i, op := range alpha {
 				if c.Mine(int64(i)) {
-					frontier = append(frontier, node{[]c10Op{op}})
+					frontier = append(frontier, node{append(append([]c10Op{}, prefix...), op)})
 				}
 			}
 			first := true
-			for d := 1; d <= depth && len(frontier) > 0; d++ {
+			passDepth := depth
+			if pass >= 3 && passDepth > 3 {
+				passDepth = 3 // the prefixed passes explore three further operations in both tiers
+			}
+			for d := 1; d <= passDepth && len(frontier) > 0; d++ {
 				var next []node
 				for _, nd := range frontier {
 					if c.TimeUp() {
